@@ -179,7 +179,7 @@ func runShard(in string, lo, hi int, budget time.Duration, memMB int, results []
 		} else {
 			cmd = exec.Command(argv[0], argv[1:]...)
 		}
-		cmd.Env = append(os.Environ(), "GOTRACEBACK=single", "GOMAXPROCS=2")
+		cmd.Env = append(os.Environ(), "GOTRACEBACK=single", "GOMAXPROCS="+envOr("PVH_GOMAXPROCS", "2"), "GORACE=halt_on_error=1 exitcode=66")
 		stdout, _ := cmd.StdoutPipe()
 		var errb strings.Builder
 		cmd.Stderr = &limitedWriter{w: &errb, n: 1 << 16}
@@ -246,6 +246,13 @@ func runShard(in string, lo, hi int, budget time.Duration, memMB int, results []
 	}
 }
 
+func envOr(k, d string) string {
+	if v := os.Getenv(k); v != "" {
+		return v
+	}
+	return d
+}
+
 type limitedWriter struct {
 	w *strings.Builder
 	n int
@@ -278,6 +285,13 @@ func crashRecord(line []byte, kind, stderr string, d time.Duration) []byte {
 	}
 	msg := firstLine(stderr)
 	ev["out"] = crashOut(ev, kind, plencFrame(stderr), msg, int(d/time.Millisecond))
+	if strings.Contains(stderr, "DATA RACE") {
+		kind = "race"
+		ev["out"] = crashOut(ev, kind, raceFrame(stderr), "WARNING: DATA RACE", int(d/time.Millisecond))
+	}
+	if ev["ev"] == "sched" || ev["ev"] == "stress" {
+		ev["out"] = map[string]any{"kind": kind, "where": ev["out"].(map[string]any)["where"], "msg": msg, "results": []any{}, "hooks": []any{}}
+	}
 	if ev["ev"] == "hist" {
 		ev["out"] = map[string]any{"kind": kind, "where": plencFrame(stderr), "msg": msg, "steps": []any{}}
 	}
@@ -316,6 +330,20 @@ func plencFrame(stack string) string {
 				loc = loc[p+1:]
 			}
 			return strings.TrimPrefix(fn, "/") + "@" + loc
+		}
+	}
+	return ""
+}
+
+// raceFrame extracts the first plenc frame of a race detector report.
+func raceFrame(report string) string {
+	for _, l := range strings.Split(report, "\n") {
+		l = strings.TrimSpace(l)
+		if strings.HasPrefix(l, "github.com/philpearl/plenc") {
+			if p := strings.LastIndex(l, "("); p > 0 {
+				l = l[:p]
+			}
+			return strings.TrimPrefix(strings.TrimPrefix(l, "github.com/philpearl/plenc"), "/")
 		}
 	}
 	return ""
